@@ -3,5 +3,6 @@
 # Run after every engine change: a check that alarms on the unchanged tree is broken.
 cd "$(dirname "$0")/.."
 tier=${1:-quick}
+python3 tools/scopecheck.py || exit 1
 ids=$(python3 -c "import json;print(' '.join(sorted(json.load(open('props.json')))))")
 for p in $ids; do echo $p; done | xargs -P 4 -I{} sh -c "./check {} --tier $tier > /var/tmp/chk-{}.log 2>&1; echo \"{} rc=\$? \$(tail -n1 /var/tmp/chk-{}.log)\"" | sort
